@@ -345,7 +345,7 @@ func (r *SparseInt64Vector) VdotM(a ConstVector, b ConstMatrix) Vector {
     panic("result and argument must be different vectors")
   }
   t := NullInt64()
-  for i := 0; i < n; i++ {
+  for i := 0; i < m; i++ {
     r.AT(i).Reset()
   }
   for it := b.ConstIterator(); it.Ok(); it.Next() {
